@@ -123,7 +123,7 @@ def model_batch(reqs):
     """Pipe many requests through one model process (fast path)."""
     data = "".join(json.dumps(r) + "\n" for r in reqs)
     r = subprocess.run([MODEL_EXE], input=data, stdout=subprocess.PIPE, text=True)
-    outs = [json.loads(l) for l in r.stdout.splitlines()]
+    outs = [json.loads(l) for l in r.stdout.split("\n") if l]
     if len(outs) != len(reqs):
         raise RuntimeError("model answered %d of %d requests" % (len(outs), len(reqs)))
     return outs
